@@ -101,10 +101,16 @@ def proof_gate(pid, thorough):
     info['cone_files'] = sorted(cone)
     info['cone_statements'] = n
     if thorough:
-        rc3, out3 = sh('timeout 1700 coqchk -silent -o -Q theories MS -Q props MSP MSP.%s 2>&1 | tail -40' % pid, cwd=COQ, timeout=1800)
+        rc3, out3 = sh('timeout 1700 coqchk -silent -o -Q theories MS -Q props MSP MSP.%s 2>&1' % pid, cwd=COQ, timeout=1800)
         info['coqchk'] = out3[-1500:]
-        if rc3 != 0 or 'Modules were successfully checked' not in out3:
-            info['problems'].append('coqchk did not succeed: ' + out3[-300:])
+        info['coqchk_cmd'] = 'cd /verif/coq && coqchk -silent -o -Q theories MS -Q props MSP MSP.%s' % pid
+        m = re.search(r'\* Axioms:\s*(.*?)\n\s*\n\* Constants', out3, flags=re.S)
+        axioms = m.group(1).strip() if m else 'unparsed'
+        info['coqchk_axioms'] = axioms
+        if rc3 != 0:
+            info['problems'].append('coqchk failed (exit %d): %s' % (rc3, out3[-300:]))
+        elif axioms != '<none>':
+            info['problems'].append('coqchk reports axioms: ' + axioms[:300])
     info['ok'] = not info['problems'] and len(info['theorems']) > 0
     if not info['theorems']:
         info['problems'].append('no theorem in property file')
@@ -266,6 +272,8 @@ def write_evidence(rep, mod, nviol):
     }
     if gate.get('coqchk'):
         ev['coverage']['coqchk_tail'] = gate['coqchk'][-600:]
+        ev['coverage']['coqchk_cmd'] = gate.get('coqchk_cmd')
+        ev['coverage']['coqchk_axioms'] = gate.get('coqchk_axioms')
     os.makedirs(os.path.join(VERIF, 'evidence'), exist_ok=True)
     with open(os.path.join(VERIF, 'evidence', rep.pid + '.json'), 'w') as f:
         json.dump(ev, f, indent=1, default=str)
